@@ -11,6 +11,9 @@ package main
 //                  language's entry points object.Len / First / Rest / Range / Equals
 //        api-meth  the same map observed through the methods of the Map interface
 //        src       the same history as grol source through repl.EvalOne on a fresh state
+//      Emitted besides the transitions, for every state: the map held by a constant (kbind / kset / kdel),
+//      two merges from one operand (fork), a merge onto a view (view); every line also carries the printed
+//      forms of the values the variable held earlier, which are compared after the operation.
 //      The Go side holds no oracle: it compares strings / numbers produced by the real code with
 //      the strings / numbers the spec emitted.
 // TV   long random histories over ~36 keys run on the real code (Go API and source), recorded
@@ -319,10 +322,12 @@ type c11Obs struct {
 // c11Seen: one channel's observation of one case.
 type c11Seen struct {
 	Obs     c11Obs `json:"obs"`
-	Ch      int    `json:"ch"`  // del: 1 changed, 0 not; else 2
-	Eq      int    `json:"eq"`  // equal to an equal map built in another order (both directions)
-	Neq     int    `json:"neq"` // 1 when it claims equality with a different map
-	It      string `json:"it"`  // loop cases: the pairs the loop visited
+	Ch      int    `json:"ch"`   // del: 1 changed, 0 not; else 2
+	Eq      int    `json:"eq"`   // equal to an equal map built in another order (both directions)
+	Neq     int    `json:"neq"`  // 1 when it claims equality with a different map
+	It      string `json:"it"`   // loop cases: the pairs the loop visited
+	Acc     int    `json:"acc"`  // constant cases: 1 the store into the constant was accepted, 0 refused
+	Prev    string `json:"prev"` // the values the variable held earlier (and sibling results), printed after the operation
 	HistErr string `json:"hist_err,omitempty"`
 	OpErr   string `json:"op_err,omitempty"`
 }
@@ -395,6 +400,77 @@ func (u *c11Univ) apiApply(m object.Map, op c11Op, meth bool) (res object.Map, c
 		return m.Append(m), 2, ""
 	}
 	return nil, 2, "unknown op " + op.O
+}
+
+func c11ViewBounds(a, n int) (int, int) {
+	if a == 0 {
+		return 0, n - 1
+	}
+	return 1, n
+}
+
+func (o c11Op) isConst() bool { return o.O == "kbind" || o.O == "kset" || o.O == "kdel" }
+
+// apiConst: the map held by a constant of an object.Environment; the steps of the evaluator (copy, change, store)
+// with the store decided by the environment. Returns what the constant holds afterwards.
+func (u *c11Univ) apiConst(m object.Map, op c11Op, alt []c11Op, meth bool) (res object.Map, ch, acc int, oerr string) {
+	defer func() {
+		if r := recover(); r != nil {
+			res, oerr = nil, fmt.Sprintf("panic: %v", r)
+		}
+	}()
+	env := object.NewRootEnvironment()
+	if r := env.Set("K", m); r.Type() == object.ERROR {
+		return nil, 2, 0, "K = m: " + r.Inspect()
+	}
+	held := func() (object.Map, bool) {
+		o, ok := env.Get("K")
+		if !ok {
+			return nil, false
+		}
+		mm, ok := object.Value(o).(object.Map)
+		return mm, ok
+	}
+	cur, ok := held()
+	if !ok {
+		return nil, 2, 0, "K does not hold a map"
+	}
+	ch = 2
+	store := func(v object.Map) int {
+		if r := env.Set("K", v); r.Type() == object.ERROR {
+			return 0
+		}
+		return 1
+	}
+	switch op.O {
+	case "kbind":
+		t := object.NewMap()
+		for i, x := range alt {
+			var e string
+			t, _, e = u.apiApply(t, x, meth)
+			if e != "" {
+				return nil, 2, 0, fmt.Sprintf("other way step %d (%s): %s", i+1, x.O, e)
+			}
+		}
+		acc = store(t)
+	case "kset":
+		acc = store(object.CopyMap(cur).Set(u.kobj[op.A-1], u.vobj[op.B-1]))
+	case "kdel":
+		m2, changed := object.CopyMap(cur).Delete(u.kobj[op.A-1])
+		switch {
+		case !changed:
+			ch = 0
+		case store(m2) == 1:
+			ch = 1
+		default:
+			ch = 3
+		}
+	}
+	res, ok = held()
+	if !ok {
+		return nil, ch, acc, "K does not hold a map afterwards"
+	}
+	return res, ch, acc, ""
 }
 
 func c11RestTxt(r object.Object) string {
@@ -529,28 +605,73 @@ func (u *c11Univ) different(ps [][2]int) [][][2]int {
 	return [][][2]int{a, append([][2]int{}, ps[1:]...)}
 }
 
-func (u *c11Univ) apiRun(h []c11Op, op c11Op, ps [][2]int, gk []int, meth bool) c11Seen {
+func (u *c11Univ) apiRun(h []c11Op, op c11Op, alt []c11Op, ps [][2]int, gk []int, meth bool) c11Seen {
 	m := object.NewMap()
+	var earlier []object.Map // every value the variable held: they are values, nothing done later may change them
 	for i, x := range h {
 		var e string
 		m, _, e = u.apiApply(m, x, meth)
 		if e != "" {
 			return c11Seen{HistErr: fmt.Sprintf("history step %d (%s): %s", i+1, x.O, e), Obs: c11Obs{Err: 1}, Ch: 2}
 		}
+		earlier = append(earlier, m)
 	}
 	var r object.Map
-	var ch int
+	var ch, acc int
 	var e, it string
-	if op.J > 0 {
+	switch {
+	case op.J > 0:
 		r, ch, it, e = u.apiLoop(m, op, meth)
-	} else {
+	case op.isConst():
+		r, ch, acc, e = u.apiConst(m, op, alt, meth)
+	case op.O == "fork": // a = m + Lits[A]; b = m + Lits[B]; a is the result, m and b join the earlier values
+		func() {
+			defer func() {
+				if p := recover(); p != nil {
+					e = fmt.Sprintf("panic: %v", p)
+				}
+			}()
+			if op.A < 1 || op.A > len(u.Lits) || op.B < 1 || op.B > len(u.Lits) {
+				e = "literal index out of range"
+				return
+			}
+			a := m.Append(u.mkLit(u.Lits[op.A-1]))
+			b := m.Append(u.mkLit(u.Lits[op.B-1]))
+			earlier = append(earlier, m, b)
+			r, ch = a, 2
+		}()
+	case op.O == "view": // v = m[l:r] (A = 0: without the last pair, 1: without the first); w = v + Lits[B]
+		if op.B < 1 || op.B > len(u.Lits) {
+			e = "literal index out of range"
+			break
+		}
+		l, rr := c11ViewBounds(op.A, m.Len())
+		var v object.Map
+		v, _, e = u.apiApply(m, c11Op{O: "range", A: l, B: rr}, meth)
+		if e == "" {
+			earlier = append(earlier, m, v)
+			r, ch, e = u.apiApply(v, c11Op{O: "appr", Es: u.Lits[op.B-1]}, meth)
+		}
+	default:
 		r, ch, e = u.apiApply(m, op, meth)
 	}
 	if e != "" {
 		return c11Seen{OpErr: e, Obs: c11Obs{Err: 1}, Ch: ch}
 	}
 	seen := u.apiObserve(r, ps, gk, meth)
-	seen.Ch, seen.It = ch, it
+	seen.Ch, seen.It, seen.Acc = ch, it, acc
+	func() {
+		defer func() {
+			if p := recover(); p != nil {
+				seen.Prev = fmt.Sprintf("panic: %v", p)
+			}
+		}()
+		parts := make([]string, len(earlier))
+		for i, p := range earlier {
+			parts[i] = p.Inspect()
+		}
+		seen.Prev = "[" + strings.Join(parts, ",") + "]"
+	}()
 	return seen
 }
 
@@ -632,6 +753,26 @@ func (u *c11Univ) opSrc(op c11Op) (string, error) {
 		return fmt.Sprintf("q = []; i = 0; for kv = m { i = i + 1; if i == %d { %s }; q = q + [[kv.key, kv.value]] }", op.J, b), nil
 	}
 	switch op.O {
+	case "kset": // the map held by a constant: accepted or refused, the constant is observed afterwards
+		return "K = m; r = catch(K[" + u.ksrc[op.A-1] + "] = " + u.vsrc[op.B-1] + "); acc = !r.err; m = K", nil
+	case "kdel":
+		return "K = m; r = catch(del(K[" + u.ksrc[op.A-1] + "])); d = if r.err {\"refused\"} else {r.value}; m = K", nil
+	case "kbind": // t was built another way before the history ran
+		return "K = m; r = catch(K = t); acc = !r.err; m = K", nil
+	case "fork":
+		if op.A < 1 || op.A > len(u.Lits) || op.B < 1 || op.B > len(u.Lits) {
+			return "", fmt.Errorf("literal index out of range")
+		}
+		return "pm = m; a = m + " + u.litSrc(u.Lits[op.A-1]) + "; b = m + " + u.litSrc(u.Lits[op.B-1]) + "; m = a", nil
+	case "view":
+		if op.B < 1 || op.B > len(u.Lits) {
+			return "", fmt.Errorf("literal index out of range")
+		}
+		sl := "m[0:len(m)-1]"
+		if op.A == 1 {
+			sl = "m[1:len(m)]"
+		}
+		return "pm = m; v = " + sl + "; w = v + " + u.litSrc(u.Lits[op.B-1]) + "; m = w", nil
 	case "lit", "appr", "appl":
 		es, err := u.entries(op)
 		if err != nil {
@@ -658,22 +799,33 @@ func (u *c11Univ) opSrc(op c11Op) (string, error) {
 	return "", fmt.Errorf("unknown op %s", op.O)
 }
 
-func (u *c11Univ) histSrc(h []c11Op) (string, error) {
+// histSrc: the history from the empty map; with snap, the value after step i is also kept as p<i>.
+func (u *c11Univ) histSrc(h []c11Op, snap bool) (string, error) {
 	var sb strings.Builder
 	sb.WriteString("m = {}\n")
-	for _, x := range h {
+	for i, x := range h {
 		s, err := u.opSrc(x)
 		if err != nil {
 			return "", err
 		}
 		sb.WriteString(s)
 		sb.WriteString("\n")
+		if snap {
+			fmt.Fprintf(&sb, "p%d = m\n", i+1)
+		}
 	}
 	return sb.String(), nil
 }
 
+// c11ObsOpt: which extra lines the observation program prints after the standard ones.
+type c11ObsOpt struct {
+	del, loop, acc bool
+	prev           []string // names of the variables that hold earlier values
+}
+
 // obsSrc is the observation program: one println per observation.
-func (u *c11Univ) obsSrc(ps [][2]int, gk []int, del, loop bool) string {
+func (u *c11Univ) obsSrc(ps [][2]int, gk []int, oo c11ObsOpt) string {
+	del, loop := oo.del, oo.loop
 	var sb strings.Builder
 	if loop {
 		sb.WriteString("println(q)\n")
@@ -702,10 +854,15 @@ func (u *c11Univ) obsSrc(ps [][2]int, gk []int, del, loop bool) string {
 	if del {
 		sb.WriteString("println(d)\n")
 	}
+	if oo.acc {
+		sb.WriteString("println(acc)\n")
+	}
+	sb.WriteString("println([" + strings.Join(oo.prev, ", ") + "])\n")
 	return sb.String()
 }
 
-func c11ParseObs(out string, errs []string, del, loop bool) (seen c11Seen) {
+func c11ParseObs(out string, errs []string, oo c11ObsOpt) (seen c11Seen) {
+	del, loop := oo.del, oo.loop
 	seen.Ch = 2
 	if len(errs) > 0 {
 		seen.OpErr = strings.Join(errs, "; ")
@@ -716,6 +873,16 @@ func c11ParseObs(out string, errs []string, del, loop bool) (seen c11Seen) {
 	if loop && len(lines) > 1 {
 		seen.It = lines[0]
 		lines = lines[1:]
+	}
+	if len(lines) > 1 { // the last line: the earlier values
+		seen.Prev = lines[len(lines)-1]
+		lines = lines[:len(lines)-1]
+	}
+	if oo.acc && len(lines) > 1 {
+		if lines[len(lines)-1] == "true" {
+			seen.Acc = 1
+		}
+		lines = lines[:len(lines)-1]
 	}
 	want := 10
 	if del {
@@ -748,6 +915,8 @@ func c11ParseObs(out string, errs []string, del, loop bool) (seen c11Seen) {
 			seen.Ch = 1
 		case "false":
 			seen.Ch = 0
+		case `"refused"`, "refused":
+			seen.Ch = 3
 		default:
 			seen.Ch = -1
 		}
@@ -761,12 +930,21 @@ func c11ParseObs(out string, errs []string, del, loop bool) (seen c11Seen) {
 	return seen
 }
 
-func (u *c11Univ) srcRun(h []c11Op, op c11Op, ps [][2]int, gk []int) c11Seen {
-	hs, err := u.histSrc(h)
+func (u *c11Univ) srcRun(h []c11Op, op c11Op, alt []c11Op, ps [][2]int, gk []int) c11Seen {
+	hs, err := u.histSrc(h, true)
 	if err != nil {
 		return c11Seen{HistErr: err.Error(), Obs: c11Obs{Err: 1}, Ch: 2}
 	}
 	x := newC11Sess()
+	if op.O == "kbind" { // the same (or another) map built another way, kept as t
+		as, err := u.histSrc(alt, false)
+		if err != nil {
+			return c11Seen{HistErr: err.Error(), Obs: c11Obs{Err: 1}, Ch: 2}
+		}
+		if _, errs := x.eval(as + "t = m\n"); len(errs) > 0 {
+			return c11Seen{HistErr: "the other way of building the map failed: " + strings.Join(errs, "; "), Obs: c11Obs{Err: 1}, Ch: 2}
+		}
+	}
 	if _, errs := x.eval(hs); len(errs) > 0 {
 		return c11Seen{HistErr: "history failed: " + strings.Join(errs, "; "), Obs: c11Obs{Err: 1}, Ch: 2}
 	}
@@ -777,8 +955,18 @@ func (u *c11Univ) srcRun(h []c11Op, op c11Op, ps [][2]int, gk []int) c11Seen {
 	if err != nil {
 		return c11Seen{HistErr: err.Error(), Obs: c11Obs{Err: 1}, Ch: 2}
 	}
-	out, errs := x.eval(os1 + "\n" + u.obsSrc(ps, gk, op.O == "del", op.J > 0))
-	return c11ParseObs(out, errs, op.O == "del", op.J > 0)
+	oo := c11ObsOpt{del: op.O == "del" || op.O == "kdel", loop: op.J > 0, acc: op.O == "kbind" || op.O == "kset"}
+	for i := range h {
+		oo.prev = append(oo.prev, fmt.Sprintf("p%d", i+1))
+	}
+	switch op.O {
+	case "fork":
+		oo.prev = append(oo.prev, "pm", "b")
+	case "view":
+		oo.prev = append(oo.prev, "pm", "v")
+	}
+	out, errs := x.eval(os1 + "\n" + u.obsSrc(ps, gk, oo))
+	return c11ParseObs(out, errs, oo)
 }
 
 // ---------------------------------------------------------------------------- GEN: comparing a case
@@ -791,6 +979,9 @@ type c11Line struct {
 	Ch   int             `json:"ch"`
 	It   string          `json:"it"`
 	Dev  json.RawMessage `json:"dev"`
+	Prev string          `json:"prev"` // printed forms of the earlier results, as an array text
+	Acc  int             `json:"acc"`  // kbind / kset: 1 accepted, 0 refused
+	Alt  []c11Op         `json:"alt"`  // kbind: the other way of building a map, run from the empty map
 	Rep  string          `json:"rep"`
 	Repb string          `json:"repb"`
 }
@@ -813,6 +1004,30 @@ func (l *c11Line) dev() *c11Dev {
 
 // c11Diff returns "" when the channel saw exactly the expected observations.
 func c11Diff(seen c11Seen, exp c11Obs, ch int, it string) string {
+	return c11DiffLine(seen, &c11Line{Exp: exp, Ch: ch, It: it, Prev: seen.Prev, Acc: seen.Acc})
+}
+
+// c11EarlierMark / c11ConstMark start the texts of the two kinds of difference that have signatures of their own.
+const (
+	c11EarlierMark = "an earlier value changed"
+	c11ConstMark   = "the constant"
+)
+
+func c11DiffLine(seen c11Seen, l *c11Line) string {
+	exp, ch, it := l.Exp, l.Ch, l.It
+	if d := c11Diff0(seen, exp, ch, it, l.Op.isConst()); d != "" {
+		return d
+	}
+	switch {
+	case seen.Acc != l.Acc:
+		return fmt.Sprintf("%s accepted the store: %d want %d", c11ConstMark, seen.Acc, l.Acc)
+	case seen.Prev != l.Prev:
+		return fmt.Sprintf("%s: the values held before the operation now print %s, they were %s", c11EarlierMark, seen.Prev, l.Prev)
+	}
+	return ""
+}
+
+func c11Diff0(seen c11Seen, exp c11Obs, ch int, it string, isConst bool) string {
 	if seen.HistErr != "" {
 		return seen.HistErr
 	}
@@ -835,6 +1050,8 @@ func c11Diff(seen c11Seen, exp c11Obs, ch int, it string) string {
 		return fmt.Sprintf("rest %s want %s", o.Rest, exp.Rest)
 	case o.Iter != exp.Iter:
 		return fmt.Sprintf("iteration %s want %s", o.Iter, exp.Iter)
+	case seen.Ch != ch && isConst:
+		return fmt.Sprintf("%s: del answered %d want %d (1 true, 0 false, 3 refused) and the map holds %s", c11ConstMark, seen.Ch, ch, o.Printed)
 	case seen.Ch != ch:
 		return fmt.Sprintf("del reported %d want %d", seen.Ch, ch)
 	case seen.Eq != 1:
@@ -853,14 +1070,14 @@ type c11Fail struct {
 
 var c11Channels = []string{"api-fn", "api-meth", "src"}
 
-func (u *c11Univ) runChannel(chn string, h []c11Op, op c11Op, ps [][2]int, gk []int) c11Seen {
+func (u *c11Univ) runChannel(chn string, h []c11Op, op c11Op, alt []c11Op, ps [][2]int, gk []int) c11Seen {
 	switch chn {
 	case "api-fn":
-		return u.apiRun(h, op, ps, gk, false)
+		return u.apiRun(h, op, alt, ps, gk, false)
 	case "api-meth":
-		return u.apiRun(h, op, ps, gk, true)
+		return u.apiRun(h, op, alt, ps, gk, true)
 	}
-	return u.srcRun(h, op, ps, gk)
+	return u.srcRun(h, op, alt, ps, gk)
 }
 
 func (u *c11Univ) allKeys() []int {
@@ -876,12 +1093,18 @@ func (u *c11Univ) genCase(l *c11Line) []c11Fail {
 	var fails []c11Fail
 	gk := u.allKeys()
 	for _, chn := range c11Channels {
-		seen := u.runChannel(chn, l.H, l.Op, l.Ps, gk)
-		d := c11Diff(seen, l.Exp, l.Ch, l.It)
+		seen := u.runChannel(chn, l.H, l.Op, l.Alt, l.Ps, gk)
+		d := c11DiffLine(seen, l)
 		if d == "" {
 			continue
 		}
 		sig := "map-observation-mismatch"
+		switch {
+		case strings.HasPrefix(d, c11EarlierMark):
+			sig = "map-earlier-value-changed"
+		case l.Op.isConst():
+			sig = "map-held-by-constant-mismatch"
+		}
 		// The only named deviation of the spec: a *SmallMap escaped from SmallMap.Append (rep "psmall").
 		// A failing case is attributed to it only when the implementation-shaped model, with that
 		// deviation, predicts exactly what the real code showed.
@@ -900,7 +1123,7 @@ func (u *c11Univ) genCase(l *c11Line) []c11Fail {
 		}
 		fails = append(fails, c11Fail{Sig: sig, What: fmt.Sprintf("[%s] after %s then %s: %s", chn, jstr(l.H), jstr(l.Op), d),
 			Replay: map[string]any{"check": "gen", "channel": chn, "universe": u.Keys, "vals": u.Vals, "lits": u.Lits,
-				"h": l.H, "op": l.Op, "exp": l.Exp, "ps": l.Ps, "ch": l.Ch, "it": l.It, "observed": seen}})
+				"h": l.H, "op": l.Op, "exp": l.Exp, "ps": l.Ps, "ch": l.Ch, "it": l.It, "prev": l.Prev, "acc": l.Acc, "alt": l.Alt, "observed": seen}})
 	}
 	return fails
 }
@@ -979,7 +1202,11 @@ func c11GenWorker(args []string) {
 
 // ---------------------------------------------------------------------------- TLC configurations
 
-func c11Cfg(univ, lits string, escaping, stale, emit bool, loopAt, invs string) string {
+// c11Invs: the invariants of MapRep.tla every configuration is checked for.
+const c11Invs = "RepOK AbsOK ObsOK EqOK ConstOK EarlierOK CapOK KeysListedInOrder"
+
+// c11Cfg: dev names the deviation that is switched on ("" none, "escaping", "inplace", "identbyrep").
+func c11Cfg(univ, lits string, dev string, stale, emit bool, loopAt, invs string) string {
 	b := func(x bool) string {
 		if x {
 			return "TRUE"
@@ -987,7 +1214,9 @@ func c11Cfg(univ, lits string, escaping, stale, emit bool, loopAt, invs string) 
 		return "FALSE"
 	}
 	return fmt.Sprintf("CONSTANTS\n Keys <- %s\n Vals <- V2\n Lits <- %s\n MaxSmall = 4\n EscapingPointer = %s\n TrackStale = %s\n LoopAt = %s\n EmitOn = %s\n"+
-		"INIT Init\nNEXT Next\nVIEW view\nINVARIANTS %s\n", univ, lits, b(escaping), b(stale), loopAt, b(emit), invs)
+		" AppendInPlace = %s\n IdenticalByRep = %s\n MaxSpare = 2\n ForkLits <- %s\n"+
+		"INIT Init\nNEXT Next\nVIEW %s\nINVARIANTS %s\n", univ, lits, b(dev == "escaping"), b(stale), loopAt, b(emit), b(dev == "inplace"), b(dev == "identbyrep"),
+		map[bool]string{true: "FLG", false: "FL"}[emit], map[bool]string{true: "viewG", false: "view"}[emit], invs)
 }
 
 func c11TraceCfg(escaping bool) string {
@@ -996,7 +1225,7 @@ func c11TraceCfg(escaping bool) string {
 		e = "TRUE"
 	}
 	return "CONSTANTS\n Keys <- TKeys\n Vals <- TVals\n Lits <- NoLits\n MaxSmall = 4\n EscapingPointer = " + e +
-		"\n TrackStale = TRUE\n LoopAt = {}\n EmitOn = FALSE\nINIT TraceInit\nNEXT TraceNext\nINVARIANTS RepOK AbsOK ObsOK\nPOSTCONDITION TraceAccepted\n"
+		"\n TrackStale = TRUE\n LoopAt = {}\n EmitOn = FALSE\n AppendInPlace = FALSE\n IdenticalByRep = FALSE\n MaxSpare = 2\n ForkLits = {}\nINIT TraceInit\nNEXT TraceNext\nINVARIANTS RepOK AbsOK ObsOK CapOK\nPOSTCONDITION TraceAccepted\n"
 }
 
 // ---------------------------------------------------------------------------- TV: random histories
@@ -1103,8 +1332,8 @@ func (d *c11SrcDriver) apply(op c11Op) (string, string) {
 	return "", ""
 }
 func (d *c11SrcDriver) observe(ps [][2]int, gk []int, del bool) c11Seen {
-	out, errs := d.x.eval(d.u.obsSrc(ps, gk, del, false))
-	return c11ParseObs(out, errs, del, false)
+	out, errs := d.x.eval(d.u.obsSrc(ps, gk, c11ObsOpt{del: del}))
+	return c11ParseObs(out, errs, c11ObsOpt{del: del})
 }
 
 // c11RandOp draws the next operation. n is the current length of the real map. When allowEmptyRight is
@@ -1419,16 +1648,36 @@ func checkC11(c *Ctx) {
 	}
 
 	// 1. design-level counterexample: the spec of the code before 520f0a5 (EscapingPointer) must violate ObsOK.
-	r, err := c.TLC(TLCOpt{Spec: "MapRep", Cfg: c11Cfg("U6", "L6", true, false, false, "{}", "RepOK AbsOK ObsOK EqOK KeysListedInOrder"), Workers: 2, AllowError: true})
-	if err != nil {
-		c.Infra(err)
-		return
+	//    Likewise the two other named deviations: an append into the left operand's spare capacity must violate EarlierOK,
+	//    an Identical that looks at the representation must violate ConstOK. The three runs go side by side.
+	devRuns := []struct{ dev, inv, cov, what string }{
+		{"escaping", "ObsOK", "design_counterexample_with_escaping_pointer", "ObsOK violated after `small + {}` (rest/range unsupported, iteration stops after one element)"},
+		{"inplace", "EarlierOK", "design_counterexample_with_append_in_place", "EarlierOK violated: a merge written into the spare capacity of its left operand overwrites pairs of another value"},
+		{"identbyrep", "ConstOK", "design_counterexample_with_identical_by_representation", "ConstOK violated: a constant refuses the same map built another way"},
 	}
-	if r.InvViolated != "ObsOK" {
-		c.Infra(fmt.Errorf("deviation run (EscapingPointer=TRUE) did not violate ObsOK: %q\n%s", r.InvViolated, r.ErrText))
-		return
+	devErr := make([]error, len(devRuns))
+	var dw sync.WaitGroup
+	for i, d := range devRuns {
+		dw.Add(1)
+		go func() {
+			defer dw.Done()
+			r, err := c.TLC(TLCOpt{Spec: "MapRep", Cfg: c11Cfg("U6", "L6", d.dev, false, false, "{}", c11Invs), Workers: 2, AllowError: true})
+			switch {
+			case err != nil:
+				devErr[i] = err
+			case r.InvViolated != d.inv:
+				devErr[i] = fmt.Errorf("deviation run (%s) did not violate %s: %q\n%s", d.dev, d.inv, r.InvViolated, r.ErrText)
+			}
+		}()
 	}
-	c.Cov("design_counterexample_with_escaping_pointer", "ObsOK violated after `small + {}` (rest/range unsupported, iteration stops after one element)")
+	dw.Wait()
+	for i, d := range devRuns {
+		if devErr[i] != nil {
+			c.Infra(devErr[i])
+			return
+		}
+		c.Cov(d.cov, d.what)
+	}
 
 	// 2. MC of the repaired design (all invariants, stale slots tracked) runs concurrently with GEN.
 	type mcRes struct {
@@ -1450,7 +1699,7 @@ func checkC11(c *Ctx) {
 	go func() {
 		defer wg.Done()
 		for _, mu := range mcUniv {
-			r, err := c.TLC(TLCOpt{Spec: "MapRep", Cfg: c11Cfg(mu[0], mu[1], false, true, false, "{}", "RepOK AbsOK ObsOK EqOK KeysListedInOrder"),
+			r, err := c.TLC(TLCOpt{Spec: "MapRep", Cfg: c11Cfg(mu[0], mu[1], "", true, false, "{}", c11Invs),
 				Workers: 4, Timeout: 20 * time.Minute})
 			mcCh <- mcRes{r, err, mu[0]}
 		}
@@ -1469,7 +1718,7 @@ func checkC11(c *Ctx) {
 	}
 	reps := map[string]int{}
 	for gi, gu := range genUniv {
-		r, err := c.TLC(TLCOpt{Spec: "MapRep", Cfg: c11Cfg(gu[0], gu[1], false, false, true, loopAt, "RepOK AbsOK ObsOK EqOK KeysListedInOrder"),
+		r, err := c.TLC(TLCOpt{Spec: "MapRep", Cfg: c11Cfg(gu[0], gu[1], "", false, true, loopAt, c11Invs),
 			Workers: 8, Timeout: 20 * time.Minute})
 		if err != nil {
 			c.Infra(err)
@@ -1731,7 +1980,7 @@ func checkC11(c *Ctx) {
 			c.Infra(fmt.Errorf("self-test universe: %v", err))
 			return
 		}
-		good := c11Line{Op: c11Op{O: "lit", A: 1}, Ps: [][2]int{{1, 1}, {2, 1}}, Ch: 2,
+		good := c11Line{Op: c11Op{O: "lit", A: 1}, Ps: [][2]int{{1, 1}, {2, 1}}, Ch: 2, Prev: "[]",
 			Exp: c11Obs{Len: 2, Printed: "{1:10,2:10}", Iter: "[[1,10],[2,10]]", First: `{"key":1,"value":10}`, Rest: "{2:10}", Get: "[10,10]"}}
 		badl := good
 		badl.Exp.Iter = "[[2,10],[1,10]]"
@@ -1781,12 +2030,20 @@ func replayC11(rp map[string]any) (bool, string) {
 		_ = get("ps", &l.Ps)
 		_ = get("ch", &l.Ch)
 		_ = get("it", &l.It)
+		_ = get("acc", &l.Acc)
+		_ = get("alt", &l.Alt)
+		if _, ok := rp["prev"]; ok {
+			_ = get("prev", &l.Prev)
+		}
 		if err := u.prepare(); err != nil {
 			return false, "infrastructure: " + err.Error()
 		}
 		chn, _ := rp["channel"].(string)
-		seen := u.runChannel(chn, l.H, l.Op, l.Ps, u.allKeys())
-		d := c11Diff(seen, l.Exp, l.Ch, l.It)
+		seen := u.runChannel(chn, l.H, l.Op, l.Alt, l.Ps, u.allKeys())
+		if _, ok := rp["prev"]; !ok { // a replay file written before earlier values were observed
+			l.Prev = seen.Prev
+		}
+		d := c11DiffLine(seen, &l)
 		return d == "", fmt.Sprintf("[%s] after %s then %s: %s", chn, jstr(l.H), jstr(l.Op), d)
 	case "tv":
 		var tr c11Trace
